@@ -27,6 +27,8 @@ theorem accepted_listener_proto (E : ListenEnv) (cfg : Map) (l : LListen) (h : p
   unfold parseListenM at h
   split at h
   · cases h
+  split at h
+  · cases h
   · rename_i hnone
     have hall : ∀ kv ∈ cfg, keyBad E kv.1 kv.2 = false := by
       intro kv hkv
@@ -58,6 +60,8 @@ theorem accepted_listener_addr (E : ListenEnv) (cfg : Map) (l : LListen) (h : pa
   unfold parseListenM at h
   split at h
   · cases h
+  split at h
+  · cases h
   · split at h
     · cases h
     · rename_i hne
@@ -75,6 +79,8 @@ theorem accepted_tls_listener_has_cs (E : ListenEnv) (cfg : Map) (l : LListen) (
   unfold parseListenM at h
   split at h
   · cases h
+  split at h
+  · cases h
   · split at h
     · cases h
     · split at h
@@ -86,6 +92,15 @@ theorem accepted_tls_listener_has_cs (E : ListenEnv) (cfg : Map) (l : LListen) (
           subst h
           intro hc
           exact hn ⟨hc, hp⟩
+
+/-- **The address of an accepted listener does not depend on the order in which the keys are visited**: at most
+one of the two address keys is present (with both, Go's map iteration order used to decide — D15-3). -/
+theorem accepted_listener_addr_unambiguous (E : ListenEnv) (cfg : Map) (l : LListen)
+    (h : parseListenM E cfg = .ok l) : (addrKeys cfg).length ≤ 1 := by
+  unfold parseListenM at h
+  split at h
+  · cases h
+  · omega
 
 /-- **An accepted listener can be started**: if every accepted protocol name has a case in `startServers`
 (`acceptedProtos ⊆ handled`, an obligation over the regenerated facts), the switch never reaches its fatal
@@ -141,6 +156,7 @@ example : parseListenM envEx [([], ":1".toList), ("proto".toList, "https".toList
 example : parseListenM envEx [([], ":1".toList), ("proto".toList, "grpc".toList), ("cs".toList, "mycs".toList)] =
     .error .csNeedsTLSProto := by decide
 example : parseListenM envEx [("proto".toList, "tcp".toList)] = .error .needAddr := by decide
+example : parseListenM envEx [([], ":1".toList), ("addr".toList, ":2".toList)] = .error .twoAddrs := by decide
 example : parseListenM envEx [([], ":1".toList), ("rt".toList, "x".toList)] = .error (.field "rt".toList) := by decide
 example : parseListenersM envEx [[([], ":1".toList)], [([], ":2".toList), ("proto".toList, "grpc".toList)]] =
     .ok [{ addr := ":1".toList, proto := "http".toList, cs := [] }, { addr := ":2".toList, proto := "grpc".toList, cs := [] }] := by decide
